@@ -21,7 +21,7 @@ CHECKS = {
 # Manifest metadata (tools/gen_manifest.py turns this into MANIFEST.json).
 META = {
     "C20": dict(
-        text="Exploration: every byte string of length 0-2 (quick) / 0-3 (thorough) is decoded exhaustively, then hundreds of thousands (millions in the thorough tier) of structurally generated datagrams -- all 28 types with tampered header form, lying length fields, truncation, extension, AUTH method-length overruns -- go through packets1.ReadPacket under recover(); the oracle is 'returns (packet,nil) or (nil,error), never panics'. No claim of absence beyond the enumerated lengths.",
+        text="Exploration: every byte string of length 0-2 (quick) / 0-3 (thorough) is decoded exhaustively, then hundreds of thousands (millions in the thorough tier) of structurally generated datagrams -- all 28 types with tampered header form, lying length fields, truncation, extension, AUTH method-length overruns -- go through packets1.ReadPacket under recover(); the oracle is 'returns (packet,nil) or (nil,error), never panics'. No claim of absence beyond the enumerated lengths. The decoded packet is compared after two further datagrams have been decoded (it must not alias the decoder's buffers).",
         note="Trusts the harness's one-datagram reader to model a UDP/DTLS read; the decoded packet's String() is exercised too (logging path).",
         technique="exhaustive enumeration of short inputs + structural PBT (rapid) with shrinking"),
     "C21": dict(
@@ -41,7 +41,7 @@ CHECKS["C09"] = dict(parts=[part("will-protocol", "gw", "TestC09", 4000, 300_000
 _GW_NOTE = "Real gateway session (unmodified handler1.run through the verif-tagged hook) on in-memory links inside a testing/synctest bubble (virtual time); the scripted client and broker speak through the reference codecs snref/mqttref, which are trusted. Built with go1.26.8 (needed for synctest)."
 META.update({
     "C07": dict(
-        text="Exploration: thousands of generated pre-admission packet sequences (every packet type, will/auth/sleep variants, auth on/off, broker accept/refuse/silent) are run against the real session; a monitor over the complete trace checks that CONNACK(accepted) is preceded by a broker acceptance in this session, that nothing but CONNECT/exempt QoS -1 PUBLISH/DISCONNECT reaches the broker before admission, and that an illegal packet ends the session within one poll interval with nothing forwarded afterwards. Broker CONNACK codes are drawn from 0, the five defined refusals and reserved values (6, 0x10, 0x7f, 0x80..0x9f, 0xfd..0xff): accepted is code 0 and nothing else.",
+        text="Exploration: thousands of generated pre-admission packet sequences (every packet type, will/auth/sleep variants, auth on/off, broker accept/refuse/silent) are run against the real session; a monitor over the complete trace checks that CONNACK(accepted) is preceded by a broker acceptance in this session, that nothing but CONNECT/exempt QoS -1 PUBLISH/DISCONNECT reaches the broker before admission, and that an illegal packet ends the session within one poll interval with nothing forwarded afterwards. Broker CONNACK codes are drawn from 0, the five defined refusals and reserved values (6, 0x10, 0x7f, 0x80..0x9f, 0xfd..0xff): accepted is code 0 and nothing else. CONNACKs are script steps (late, duplicated, unsolicited) and admission is judged per connect exchange; a plain DISCONNECT comes in both encodings (without the Duration field, and with the field present and zero).",
         note=_GW_NOTE, technique="stateful PBT (generated packet sequences) with a trace monitor as oracle; virtual time"),
     "C08": dict(
         text="Exploration: generated connect exchanges with AUTH/WILLTOPIC/WILLMSG in any order and multiplicity and hostile AUTH payloads, auth on/off, all gateway-credential configurations; the monitor compares the credentials of every MQTT CONNECT on the broker stream with the AUTH of the current exchange (auth on) or with the configured credentials (auth off) and checks the unknown-method refusal.",
@@ -60,16 +60,16 @@ CHECKS["C03"] = dict(parts=[part("control-packets-one-to-one", "gw", "TestC03", 
 CHECKS["C04"] = dict(parts=[part("topic-ids-unique", "gw", "TestC04", 2000, 50_000)])
 META.update({
     "C01": dict(
-        text="Exploration: generated session histories (registrations, subscriptions of every form, broker grants/refusals) interleaved with client PUBLISH packets over all flag combinations, topic-ID types 0-3, known/unknown/shadowed IDs and boundary payload sizes; after every PUBLISH the broker byte stream is parsed by the independent MQTT parser and compared with what the client's topic ID denotes at that moment according to a model rebuilt from the trace (exactly one unchanged PUBLISH, or none when the ID denotes nothing). Histories include broker PUBLISHes on plain names whose gateway REGISTER the scripted client accepts, refuses (return codes 1-3) or ignores: an ID from a refused REGISTER denotes nothing.",
+        text="Exploration: generated session histories (registrations, subscriptions of every form, broker grants/refusals) interleaved with client PUBLISH packets over all flag combinations, topic-ID types 0-3, known/unknown/shadowed IDs and boundary payload sizes; after every PUBLISH the broker byte stream is parsed by the independent MQTT parser and compared with what the client's topic ID denotes at that moment according to a model rebuilt from the trace (exactly one unchanged PUBLISH, or none when the ID denotes nothing). Histories include broker PUBLISHes on plain names whose gateway REGISTER the scripted client accepts, refuses (return codes 1-3) or ignores: an ID from a refused REGISTER denotes nothing. Sessions also contain a CONNECT which the gateway refuses itself and which names another client, duplicates of the client's recent datagrams (its REGACKs included: a stale REGACK for a message ID the gateway uses again), payloads up to 8183 octets (the largest that fits), and in a quarter of the cases scripted peers which answer from the links' write hooks, while the gateway is still inside the write.",
         note=_GW_NOTE, technique="stateful PBT against a topic-knowledge reference model; differential parse of the broker stream"),
     "C02": dict(
-        text="Exploration: generated histories with broker PUBLISH packets on short, predefined (own, '*'-only, shadowed), registered and brand-new names (also two at the same instant, and at the same instant as the client's own REGISTER of that name); the scripted client resolves every received PUBLISH using only what it accepted itself and the shared predefined configuration (reference lookup); name, payload, QoS and retain must match the broker's.",
+        text="Exploration: generated histories with broker PUBLISH packets on short, predefined (own, '*'-only, shadowed), registered and brand-new names (also two at the same instant, and at the same instant as the client's own REGISTER of that name); the scripted client resolves every received PUBLISH using only what it accepted itself and the shared predefined configuration (reference lookup); name, payload, QoS and retain must match the broker's. Payloads up to 8183 octets; refused CONNECTs naming another client; stale duplicate REGACKs; eager peers (answers from the links' write hooks) in a quarter of the cases; deliveries are attributed by payload, QoS, retain, the broker's packet identifier (QoS 1/2) and, for look-alikes, the resolved name.",
         note=_GW_NOTE + " Message-ID collisions between exchanges of opposite directions are excluded here by construction (they are C06's subject). Orderings between the gateway's two receive loops are explored only as far as the Go scheduler produces them: a schedule-dependent regression replay is repeated 1500 times.", technique="stateful PBT; oracle = independent client-side resolution model"),
     "C03": dict(
-        text="Exploration: generated SUBSCRIBE/UNSUBSCRIBE/PUBREL/PINGREQ/DISCONNECT traffic and broker acknowledgements with return codes drawn independently of the requests; per step exactly one translated packet with the same message ID, resolved filter, requested QoS, acceptance iff code <= 2, granted QoS and the expected topic ID.",
+        text="Exploration: generated SUBSCRIBE/UNSUBSCRIBE/PUBREL/PINGREQ/DISCONNECT traffic and broker acknowledgements with return codes drawn independently of the requests; per step exactly one translated packet with the same message ID, resolved filter, requested QoS, acceptance iff code <= 2, granted QoS and the expected topic ID. Time passes between steps (1 ms - 9.999 s, RetryDelay 10 s; the SUBACK clause is time-aware), a message ID is used again after an answered SUBSCRIBE, the client sleeps and comes back with CONNECT while 0-2 broker answers arrive (owed at that CONNECT; no PINGRESP without PINGREQ, also with a broker which answers the gateway's own pings from the write hook).",
         note=_GW_NOTE, technique="stateful PBT with a one-to-one translation model"),
     "C04": dict(
-        text="Exploration: registration histories that run 2-3x past exhaustion of a topic-ID space scaled down to 1..N (N=2..12) with predefined IDs inside the range; a history invariant over all REGACK/SUBACK/REGISTER IDs: in range, never a visible predefined ID, id->name is a function that never changes, also after refusals. The thorough tier adds one run over the real 65534-ID range. A third of the cases use the real range 1..0xFFFE with all but its top 2-12 IDs skipped beforehand (hook SkipTopicIDs), predefined IDs up to 0xFFFE inside, so that the real upper bound and wrap-around are exercised in every run.",
+        text="Exploration: registration histories that run 2-3x past exhaustion of a topic-ID space scaled down to 1..N (N=2..12) with predefined IDs inside the range; a history invariant over all REGACK/SUBACK/REGISTER IDs: in range, never a visible predefined ID, id->name is a function that never changes, also after refusals. The thorough tier adds one run over the real 65534-ID range. A third of the cases use the real range 1..0xFFFE with all but its top 2-12 IDs skipped beforehand (hook SkipTopicIDs), predefined IDs up to 0xFFFE inside, so that the real upper bound and wrap-around are exercised in every run. The forwarding oracle of C01 is applied to client PUBLISHes on known IDs after a stale duplicate REGACK ('an ID never later denotes another name' shows when the ID is used).",
         note=_GW_NOTE + " The ID range is scaled through a verif-tagged hook that replaces only the upper bound of the session's own ID sequence.", technique="model-based stateful PBT with a history invariant; scaled-down ID space"),
 })
 CHECKS["C13"] = dict(parts=[part("clean-termination", "gw", "TestC13", 3000, 150_000),
@@ -80,18 +80,18 @@ CHECKS["C23"] = dict(parts=[part("gateway-datagrams-wellformed", "gw", "TestC23G
 CHECKS["C24"] = dict(parts=[part("mqtt-valid", "gw", "TestC24", 4000, 250_000), part("slow-broker-stream", "gw", "TestC24Slow", 2000, 120_000)])
 META.update({
     "C13": dict(
-        text="Exploration: generated session prefixes (fresh, mid-connect, active with pending exchanges, asleep with/without pinger, awake, reconnected) crossed with every termination cause at drawn offsets around the poll interval; oracle: run returns within 100 ms + 1 ms of the cause on the virtual clock, the broker connection is closed, the client gets the expected number of DISCONNECTs, and a goroutine census right after the end finds no frame of the code under test. A second part runs sessions against a refusing broker address on real loopback sockets (dial failure). Prefixes include a broker that has stopped reading with a write to it pending (in-memory link with a write stall honouring write deadlines), sleep durations with a zero low or high byte, a client announcing a new sleep duration while asleep, and a client which is unreachable when the cause arrives (every write to it fails).",
+        text="Exploration: generated session prefixes (fresh, mid-connect, active with pending exchanges, asleep with/without pinger, awake, reconnected) crossed with every termination cause at drawn offsets around the poll interval; oracle: run returns within 100 ms + 1 ms of the cause on the virtual clock, the broker connection is closed, the client gets the expected number of DISCONNECTs, and a goroutine census right after the end finds no frame of the code under test. A second part runs sessions against a refusing broker address on real loopback sockets (dial failure). Prefixes include a broker that has stopped reading with a write to it pending (in-memory link with a write stall honouring write deadlines), sleep durations with a zero low or high byte, a client announcing a new sleep duration while asleep, and a client which is unreachable when the cause arrives (every write to it fails). Further causes: the client's transport closed by the peer (EOF), the broker's CONNACK arriving when the client has become unreachable; plain DISCONNECTs in both encodings; eager peers in a quarter of the cases.",
         note=_GW_NOTE + " Liveness is decided up to the observation window (400 ms of virtual time after the cause); the dial-failure part uses real time and treats its own timeouts as inconclusive.",
         technique="stateful PBT (prefix x termination cause) on a virtual clock + goroutine census; fault injection (broker unreachable) on loopback"),
     "C14": dict(
-        text="Exploration: the C13 generator; the monitor requires an MQTT DISCONNECT on the broker stream iff the client sent a plain DISCONNECT, after it, with nothing but EOF following. Additionally, anywhere in the history (also before the cause) an MQTT DISCONNECT without a preceding plain client DISCONNECT is a violation; prefixes include re-announced sleeps and sleep durations with a zero low or high byte.",
+        text="Exploration: the C13 generator; the monitor requires an MQTT DISCONNECT on the broker stream iff the client sent a plain DISCONNECT, after it, with nothing but EOF following. Additionally, anywhere in the history (also before the cause) an MQTT DISCONNECT without a preceding plain client DISCONNECT is a violation; prefixes include re-announced sleeps and sleep durations with a zero low or high byte. Further causes: transport EOF, CONNACK undeliverable to an unreachable client, a client DISCONNECT arriving after the shutdown began.",
         note=_GW_NOTE, technique="stateful PBT with an iff-monitor over the broker byte stream"),
     "C23": dict(
         text="Exploration: generated histories biased to rarely taken send paths (zero keep-alive, awake CONNECT, refusals, exhaustion replies, wake-up flush, retransmissions, shutdown, broker payloads up to 70000 octets); every datagram the gateway sent is decoded strictly by the reference decoder and checked for direction, length field and size <= 8192.",
         note=_GW_NOTE + " The client-library direction is checked by a second part once the client simulator exists.",
         technique="stateful PBT; oracle = strict reference decoder + direction table + size bound"),
     "C24": dict(
-        text="Exploration: generated histories of decodable but improper client input; every packet the gateway writes to the broker is parsed by the independent MQTT 3.1.1 parser and validated against per-packet normative statements (each violation names its clause).",
+        text="Exploration: generated histories of decodable but improper client input; every packet the gateway writes to the broker is parsed by the independent MQTT 3.1.1 parser and validated against per-packet normative statements (each violation names its clause). Second part: a broker which reads slowly (takes 1-3000 more octets, stalls 99-450 ms, reads on): the stream must parse and be, octet for octet, what a broker which is never slow reads (differential).",
         note=_GW_NOTE + " Only per-packet rules are judged; repeated CONNECTs and QoS -1 PUBLISH before CONNECT are excluded as the property says.",
         technique="stateful PBT; oracle = MQTT 3.1.1 validator with clause citations"),
 })
@@ -104,10 +104,10 @@ META.update({
         note=_GW_NOTE + " Same-instant (racing) publishes run without a settling barrier so both receive loops really run concurrently; which flush they land in is not constrained.",
         technique="stateful PBT with a sleep-state reference model and tagged messages; virtual time; same-instant injection for races"),
     "C12": dict(
-        text="Exploration: generated timed histories over 6-20 keep-alive periods in which the client meets its own obligations (activity within K, wake-ups within D for D<K, =K, >K, >>K, re-announced sleeps, returns to active); the oracle measures, on the virtual clock, every gap between consecutive writes to the broker connection against 1.5 x K.",
+        text="Exploration: generated timed histories over 6-20 keep-alive periods in which the client meets its own obligations (activity within K, wake-ups within D for D<K, =K, >K, >>K, re-announced sleeps, returns to active); the oracle measures, on the virtual clock, every gap between consecutive writes to the broker connection against 1.5 x K. The CONNECT which ends a sleep carries K, 0, 10K or K/2 in its Duration field (ignored for a sleeping client).",
         note=_GW_NOTE, technique="PBT over obligation-meeting timed histories (constructed, not filtered); oracle = max-gap over virtual timestamps"),
     "C34": dict(
-        text="Exploration: generated session prefixes after which the client is silent forever, against a broker that enforces the MQTT keep-alive and the missing-CONNECT timeout on the virtual clock; the oracle bounds the time from the client's last packet to the end of the session per state (connecting, active, asleep, woken, reconnected). In a third of the cases the vanished client is also unreachable (every write to it fails).",
+        text="Exploration: generated session prefixes after which the client is silent forever, against a broker that enforces the MQTT keep-alive and the missing-CONNECT timeout on the virtual clock; the oracle bounds the time from the client's last packet to the end of the session per state (connecting, active, asleep, woken, reconnected). In a third of the cases the vanished client is also unreachable (every write to it fails). States include a client which only ever sent a CONNECT the gateway refuses itself.",
         note=_GW_NOTE + " 'Never' is observed as 'not within the bound plus 3 K + 2 s'.", technique="PBT with a time-enforcing model broker on a virtual clock; bounded-liveness oracle"),
 })
 CHECKS["C06"] = dict(parts=[part("gateway-exchanges-independent", "gw", "TestC06GW", 3000, 200_000),
@@ -121,7 +121,7 @@ CHECKS["C25"] = dict(parts=[part("hostile-client-to-gateway", "gw", "TestC25Clie
                             part("hostile-gateway-to-client", "cl", "TestC25Gateway", 3000, 200_000, death_is_violation=True, death_kind="client-panic/hostile-gateway")])
 META.update({
     "C06": dict(
-        text="Exploration: 2-5 concurrently open exchanges of both directions whose message IDs coincide (client pool {1,2,0xFFFE,0xFFFF} against the broker's IDs and the gateway's own REGISTER IDs), with the opening packets and every acknowledgement step played in a drawn order by scripted peers that compute each packet from what they received; oracle: every exchange completes with its own acknowledgement carrying the right IDs. A second part does the same against the client library.",
+        text="Exploration: 2-5 concurrently open exchanges of both directions whose message IDs coincide (client pool {1,2,0xFFFE,0xFFFF} against the broker's IDs and the gateway's own REGISTER IDs), with the opening packets and every acknowledgement step played in a drawn order by scripted peers that compute each packet from what they received; oracle: every exchange completes with its own acknowledgement carrying the right IDs. A second part does the same against the client library. A second gateway part: an earlier exchange with the same message ID ran to completion (a SUBSCRIBE: granted or refused) or was left unanswered after 1..n-1 steps (superseded), 0-1.5 RetryDelay before; late duplicates of the first exchange's acknowledgements; a broker which reuses the identifier the moment it has the last acknowledgement.",
         note=_GW_NOTE + " Exchanges of the same direction never share an ID (out of the property's scope); no time passes, so no retry timer interferes.",
         technique="stateful PBT over interleavings of symbolic exchange steps; oracle = per-exchange completion model"),
     "C15": dict(
@@ -129,7 +129,7 @@ META.update({
         note=_GW_NOTE + " The ListenAndServe part uses real sockets and real time: a difference counts only if it shows in two executions (the second one paced), set-up failures are inconclusive, order within a direction is not compared, sleeping is left to the in-memory part. Scripts are constructed so that a lone session is deterministic (no name with two topic IDs, unique predefined names), otherwise map iteration order would differ between runs; no virtual time passes inside a case.",
         technique="metamorphic PBT: alone-vs-interleaved trace equality (in memory on virtual time, and through the real ListenAndServe on loopback sockets)"),
     "C25": dict(
-        text="Exploration: three stateful fuzzers producing only decodable packets -- hostile MQTT-SN client against a gateway session, hostile broker against a gateway session, hostile gateway against the client library with API calls in flight -- with retry delays down to 1 ms, time advances and same-instant injections; oracle: the test process survives every case (session and client goroutines have no recover, so a panic kills it; the driver attributes the death to the case written to disk beforehand and minimises it by delta debugging). The hostile client also repeats one of its last three datagrams (its automatic acknowledgements included); the hostile gateway also sends fragments of QoS 2 deliveries sharing one message ID (PUBLISH copies with drawn DUP flags, repeated PUBRELs) and duplicates of its earlier packets.",
+        text="Exploration: three stateful fuzzers producing only decodable packets -- hostile MQTT-SN client against a gateway session, hostile broker against a gateway session, hostile gateway against the client library with API calls in flight -- with retry delays down to 1 ms, time advances and same-instant injections; oracle: the test process survives every case (session and client goroutines have no recover, so a panic kills it; the driver attributes the death to the case written to disk beforehand and minimises it by delta debugging). The hostile client also repeats one of its last three datagrams (its automatic acknowledgements included); the hostile gateway also sends fragments of QoS 2 deliveries sharing one message ID (PUBLISH copies with drawn DUP flags, repeated PUBRELs) and duplicates of its earlier packets. The hostile gateway now and then answers the client's latest request properly, so that subscriptions (also to filters deeper than the topics it then publishes on) and registrations exist when the next packets arrive.",
         note=_GW_NOTE + " Data-race reports are not C25 violations (no -race build here).",
         technique="stateful fuzzing (rapid) with process-death detection and ddmin minimisation"),
 })
@@ -139,19 +139,19 @@ CHECKS["C28"] = dict(parts=[part("calls-return", "cl", "TestC28", 3000, 200_000,
 _CL_NOTE = "Real client library (unmodified, its dial replaced through the verif-tagged hook) on an in-memory datagram link inside a testing/synctest bubble; the scripted gateway speaks through the reference codec snref, which is trusted. Blocking API calls run on their own goroutines. Built with go1.26.8."
 META.update({
     "C17": dict(
-        text="Exploration: generated per-transmission fate plans (lost / processed but acknowledgement lost / acknowledged / acknowledged twice) for every protocol step of Register, Subscribe, Unsubscribe and Publish at QoS 0-3 over all topic forms, RetryCount 0-4, plus QoS 2 deliveries whose PUBREL is repeated after completion; the oracle derives from the plan whether each call must return nil or an error, and checks DUP and message IDs of every retransmission and a PUBCOMP for every PUBREL. A quarter of the calls overlap with a complete QoS 2 delivery from the gateway which carries the call's own message ID.",
+        text="Exploration: generated per-transmission fate plans (lost / processed but acknowledgement lost / acknowledged / acknowledged twice) for every protocol step of Register, Subscribe, Unsubscribe and Publish at QoS 0-3 over all topic forms, RetryCount 0-4, plus QoS 2 deliveries whose PUBREL is repeated after completion; the oracle derives from the plan whether each call must return nil or an error, and checks DUP and message IDs of every retransmission and a PUBCOMP for every PUBREL. A quarter of the calls overlap with a complete QoS 2 delivery from the gateway which carries the call's own message ID. Fates include 'stale': the transmission is lost while an acknowledgement of another kind with the same message ID arrives; the scripted gateway is eager (answers from the write hook) in 4 of 7 cases.",
         note=_CL_NOTE, technique="fault-plan PBT (loss/duplication per transmission) with a plan-derived oracle; virtual time"),
     "C27": dict(
-        text="Exploration: generated subscribe/unsubscribe histories over filters with empty levels, '+', trailing and parent-level '#', and deliveries at QoS 0/1/2 via registered, short and predefined IDs against the real client; every (filter, topic) pair of up to 2 levels is enumerated with a single subscription; oracle: a reference MQTT 3.1.1 topic matcher decides which callbacks may run (exactly one matching, none otherwise, none after Unsubscribe, QoS 2 at PUBREL). In half of the QoS 2 deliveries 1-2 Subscribe/Unsubscribe calls complete between PUBREC and PUBREL; the subscriptions current at the PUBREL decide.",
+        text="Exploration: generated subscribe/unsubscribe histories over filters with empty levels, '+', trailing and parent-level '#', and deliveries at QoS 0/1/2 via registered, short and predefined IDs against the real client; every (filter, topic) pair of up to 2 levels is enumerated with a single subscription; oracle: a reference MQTT 3.1.1 topic matcher decides which callbacks may run (exactly one matching, none otherwise, none after Unsubscribe, QoS 2 at PUBREL). In half of the QoS 2 deliveries 1-2 Subscribe/Unsubscribe calls complete between PUBREC and PUBREL; the subscriptions current at the PUBREL decide. A fifth of the subscriptions are refused by the gateway (not a current subscription); a died client process is a violation.",
         note=_CL_NOTE, technique="model-based PBT against a reference matcher; exhaustive for <= 2 levels"),
     "C28": dict(
-        text="Exploration: every API call (alone or two at the same instant) against an adversarial scripted gateway whose behaviour per datagram is drawn (silence at any step, wrong IDs/types, unsolicited packets, DISCONNECT, undecodable datagrams, duplicates), with and without keep-alive, with time advances around keep-alive ticks; oracle: each call returns within its bound on the virtual clock, and after Close or an unsolicited gateway DISCONNECT a goroutine census finds no client goroutine; goroutines still blocked at the end of a case are reported by the bubble itself. Gateway behaviours include a PUBREC repeated every 300 ms for 12 s with the PUBCOMP never sent.",
+        text="Exploration: every API call (alone or two at the same instant) against an adversarial scripted gateway whose behaviour per datagram is drawn (silence at any step, wrong IDs/types, unsolicited packets, DISCONNECT, undecodable datagrams, duplicates), with and without keep-alive, with time advances around keep-alive ticks; oracle: each call returns within its bound on the virtual clock, and after Close or an unsolicited gateway DISCONNECT a goroutine census finds no client goroutine; goroutines still blocked at the end of a case are reported by the bubble itself. Gateway behaviours include a PUBREC repeated every 300 ms for 12 s with the PUBCOMP never sent. Unsolicited packets include a REGISTER of the client's own registered name under another or the same topic ID; Publish also goes to that name; eager gateway in 4 of 7 cases; a mutex deadlock is a verdict (watchdog).",
         note=_CL_NOTE + " Hangs are decided up to 10x the bound.", technique="stateful PBT with an adversarial peer; bounded-liveness oracle on a virtual clock; goroutine census"),
 })
 CHECKS["C33"] = dict(parts=[part("client-keepalive", "cl", "TestC33", 3000, 200_000)])
 META.update({
     "C33": dict(
-        text="Exploration: real client with KeepAlive 2-30 s against a scripted gateway that drops selected ping transmissions within the retry budget; API calls (Sleep, Disconnect, Publish, Subscribe, Register, reconnect) at times drawn relative to the keep-alive period (exact tick, +-1 ns, +-1 ms, mid-period); a client-state model replayed over the timeline checks: consecutive keep-alive PINGREQs at most KeepAlive apart while active, none (original or retransmitted) while asleep or disconnected, and every concurrent call returns nil. The application's own Ping() is among the calls (its PINGREQs are dropped like the keep-alive ones).",
+        text="Exploration: real client with KeepAlive 2-30 s against a scripted gateway that drops selected ping transmissions within the retry budget; API calls (Sleep, Disconnect, Publish, Subscribe, Register, reconnect) at times drawn relative to the keep-alive period (exact tick, +-1 ns, +-1 ms, mid-period); a client-state model replayed over the timeline checks: consecutive keep-alive PINGREQs at most KeepAlive apart while active, none (original or retransmitted) while asleep or disconnected, and every concurrent call returns nil. The application's own Ping() is among the calls (its PINGREQs are dropped like the keep-alive ones). 'Once per KeepAlive period' is judged on complete periods counted from activation (not a sliding window); PINGRESPs 300-999 ms late; a stray duplicate PINGRESP inside the Sleep handshake; Ping() among the calls; eager gateway in 4 of 7 cases; a mutex deadlock is a verdict.",
         note=_CL_NOTE + " Events at exactly the instant of a state change are not ordered by the property and are tolerated.", technique="timed stateful PBT on a virtual clock with a client-state reference model"),
 })
 CHECKS["C31"] = dict(parts=[part("client-auth-after-connect", "cl", "TestC31Client", 2000, 100_000),
@@ -160,11 +160,11 @@ CHECKS["C30"] = dict(parts=[part("predefined-config", "cli", "TestC30", 60, 2000
                             part("mapping-in-process", "pure", "TestC30Map", 5000, 300_000)])
 META.update({
     "C30": dict(
-        text="Exploration: generated configurations (a YAML file with 0-3 client blocks from {'*', c1, c2} over IDs 1-4 and names that need YAML quoting, and/or 0-4 --predefined-topic options in both forms which overlap the file and each other, given by flags or by environment variables) are handed to the three real binaries built from the working tree. bisquitt is probed over loopback UDP with a PUBLISH on every predefined ID (topic seen by a harness broker, or session dropped); bisquitt-pub and bisquitt-sub run against a scripted UDP gateway and the way they address each name (predefined ID vs REGISTER/SUBSCRIBE by name) is read off the wire. Oracle: a model mapping = the file's, overridden entry by entry by the options in order, two-field options under '*'; every tool must agree with it and none may refuse a valid configuration.",
+        text="Exploration: generated configurations (a YAML file with 0-3 client blocks from {'*', c1, c2} over IDs 1-4 and names that need YAML quoting, and/or 0-4 --predefined-topic options in both forms which overlap the file and each other, given by flags or by environment variables) are handed to the three real binaries built from the working tree. bisquitt is probed over loopback UDP with a PUBLISH on every predefined ID (topic seen by a harness broker, or session dropped); bisquitt-pub and bisquitt-sub run against a scripted UDP gateway and the way they address each name (predefined ID vs REGISTER/SUBSCRIBE by name) is read off the wire. Oracle: a model mapping = the file's, overridden entry by entry by the options in order, two-field options under '*'; every tool must agree with it and none may refuse a valid configuration. In-process part: the three calls every tool makes (read file, parse options, merge) over 5000 configurations per quick run, ID -> name exact and name -> ID sound and complete against the statement's mapping; files include empty documents and empty client blocks in all YAML spellings.",
         note="Process-level check on real sockets and real time; a liveness timeout is inconclusive (the case is skipped and counted; more than half skipped = exit 2), never a violation. Binaries are built with go1.26.8 through the harness module, without the verif tag having any effect on them (no hooks in cmd/). An ID chosen by a tool passes if the model maps it back to the requested name for this client, so C05's shadowing question is not double-reported.",
         technique="PBT over configurations (rapid) with a merged-mapping reference model; differential across the three binaries via wire probes"),
     "C31": dict(
-        text="Exploration: (b) the real client library with/without a configured user, will on/off, a gateway that ignores 0..RetryCount+1 CONNECTs, repeated Connect calls and further API traffic: no AUTH datagram ever without a user; with a user every CONNECT datagram (first and retried) is immediately followed by an AUTH carrying exactly the configured credentials. (a) the three command-line tools over the exhaustive flag/environment matrix are checked by the part cli-refuses-plaintext.",
+        text="Exploration: (b) the real client library with/without a configured user, will on/off, a gateway that ignores 0..RetryCount+1 CONNECTs, repeated Connect calls and further API traffic: no AUTH datagram ever without a user; with a user every CONNECT datagram (first and retried) is immediately followed by an AUTH carrying exactly the configured credentials. (a) the three command-line tools over the exhaustive flag/environment matrix are checked by the part cli-refuses-plaintext. A client tool with credentials and --dtls whose handshake the peer refuses (fatal alert) is watched for 2.5 s: no CONNECT/AUTH may follow in clear UDP.",
         note=_CL_NOTE, technique="PBT over client configurations and connect-retry schedules; exhaustive enumeration of the CLI flag matrix"),
 })
 CHECKS["C05"] = dict(parts=[part("predefined-lookups", "pure", "TestC05", 20_000, 2_000_000)])
@@ -187,7 +187,7 @@ META.update({
         note=_PURE_NOTE.replace("no hooks needed", "one hook (transactions.VerifHoldTimer, second part only)") + " A bubble fixes time but not the order of goroutines runnable at the same instant: the race detector reports unordered conflicting accesses whether or not the bad overlap happened in that run; interleavings that need several specific context switches may be missed.",
         technique="PBT over racing operation schedules under the race detector and synctest; history invariants as oracle"),
     "C19": dict(
-        text="Exploration: retry and timed transactions on the virtual clock with one driver goroutine; RetryCount 0-6, delays 1 ms..60 s, progress events and the final completion at offsets that never coincide with a timer instant (small space enumerated); the oracle is exact on virtual timestamps: callbacks at T+d..T+c*d after the last progress, 'no more retries' at T+(c+1)*d, 'timeout' exactly at the timeout, nothing after completion.",
+        text="Exploration: retry and timed transactions on the virtual clock with one driver goroutine; RetryCount 0-6, delays 1 ms..60 s, progress events and the final completion at offsets that never coincide with a timer instant (small space enumerated); the oracle is exact on virtual timestamps: callbacks at T+d..T+c*d after the last progress, 'no more retries' at T+(c+1)*d, 'timeout' exactly at the timeout, nothing after completion. Client-level parts: the connect exchange is timed by ConnectTimeout; the last step of Publish QoS 1/2, Subscribe, Register goes out RetryCount+1 times RetryDelay apart and fails one RetryDelay later whatever non-progress (duplicate PUBRECs, stale acknowledgements) arrives in between.",
         note=_PURE_NOTE, technique="PBT with an exact timing model on a virtual clock (testing/synctest); partial exhaustive enumeration"),
     "C29": dict(
         text="Exploration: the ID sequence against a counter model exhaustively for all small ranges, ranges ending at 0xFFFF and the full range, and concurrently (2-8 goroutines, race-detector build) by comparing the multiset of results with the model's first N outputs; the transaction store and ClientState by recording generated concurrent programs with call/return times and deciding linearizability against an atomic map / register with porcupine.",
@@ -197,7 +197,7 @@ META.update({
 CHECKS["C26"] = dict(parts=[part("interop", "e2e", "TestC26", 2000, 150_000)])
 META.update({
     "C26": dict(
-        text="Exploration: generated API-call scripts (3-25 steps: connect with/without will and auth, register, subscribe of every form, publish at QoS -1..2 on every topic form, unsubscribe, ping, repeated sleep cycles with broker publishes injected during the sleep, reconnect, disconnect) run with the real client against a real gateway session and a conforming broker model over a lossless in-memory link; oracle: every call returns nil, subscriptions and published messages are at the broker exactly as requested, and every injected broker message that matches a live subscription (single messages and bursts, also on not-yet-registered topics under a wildcard) runs a handler exactly once with the broker's topic. A fifth of the subscriptions to filters not subscribed yet are refused by the broker (SUBACK 0x80): the call must report it and nothing else may change.",
+        text="Exploration: generated API-call scripts (3-25 steps: connect with/without will and auth, register, subscribe of every form, publish at QoS -1..2 on every topic form, unsubscribe, ping, repeated sleep cycles with broker publishes injected during the sleep, reconnect, disconnect) run with the real client against a real gateway session and a conforming broker model over a lossless in-memory link; oracle: every call returns nil, subscriptions and published messages are at the broker exactly as requested, and every injected broker message that matches a live subscription (single messages and bursts, also on not-yet-registered topics under a wildcard) runs a handler exactly once with the broker's topic. A fifth of the subscriptions to filters not subscribed yet are refused by the broker (SUBACK 0x80): the call must report it and nothing else may change. Predefined topics are also used by NAME (Register / Subscribe / Publish).",
         note="Real client and real gateway session wired together in one testing/synctest bubble (verif-tagged hooks for dial and session start); the broker model (harness/e2e) and the reference matcher are trusted. Sleeps stay below RetryDelay so the C11 known finding does not interfere.",
         technique="model-based end-to-end PBT (API-call sequences) against a broker reference model; virtual time"),
 })
@@ -206,9 +206,9 @@ CHECKS["C32"] = dict(parts=[part("routing-consistent", "e2e", "TestC32", 2000, 1
 _E2E_NOTE = "Real client and real gateway session wired together in one testing/synctest bubble (verif-tagged hooks for dial and session start), conforming broker model behind the gateway (harness/e2e, trusted)."
 META.update({
     "C16": dict(
-        text="Exploration: generated fault plans per datagram type of the QoS 1 and QoS 2 delivery flows (REGISTER/REGACK step included): losses of requests and acknowledgements within the retry budget, or beyond it, and duplicates with delays up to 25 s, between the real gateway and the real subscribed client; oracle: within budget the handler runs (QoS 1: at least once, broker gets exactly one PUBACK; QoS 2: exactly once, the exchange completes at the broker), every retransmission repeats message ID, payload and sets DUP, and a step whose budget is exceeded sends exactly RetryCount+1 copies and then stays silent.",
+        text="Exploration: generated fault plans per datagram type of the QoS 1 and QoS 2 delivery flows (REGISTER/REGACK step included): losses of requests and acknowledgements within the retry budget, or beyond it, and duplicates with delays up to 25 s, between the real gateway and the real subscribed client; oracle: within budget the handler runs (QoS 1: at least once, broker gets exactly one PUBACK; QoS 2: exactly once, the exchange completes at the broker), every retransmission repeats message ID, payload and sets DUP, and a step whose budget is exceeded sends exactly RetryCount+1 copies and then stays silent. In a third of the new-topic cases 1-2 further messages follow on the same new topic at the same instant.",
         note=_E2E_NOTE, technique="fault-injection PBT (loss/duplication plans per flow step) on a virtual clock; delivery/ack model as oracle"),
     "C32": dict(
-        text="Exploration: generated shared predefined configurations (overlaps and shadowing between '*' and client entries, client inside/outside the map) and operations with predefined IDs, 2-octet names over all valid byte values, and the bisquitt-pub/-sub decision logic; oracle: the broker sees exactly the topic name the client meant by its own lookup, and the handler is told exactly the broker's topic.",
+        text="Exploration: generated shared predefined configurations (overlaps and shadowing between '*' and client entries, client inside/outside the map) and operations with predefined IDs, 2-octet names over all valid byte values, and the bisquitt-pub/-sub decision logic; oracle: the broker sees exactly the topic name the client meant by its own lookup, and the handler is told exactly the broker's topic. Client IDs of 23, 24, 30 octets and non-ASCII, a second client whose ID is a prefix of the first; wildcard subscriptions; names of one octet; broker publishes aimed at subscribed names.",
         note=_E2E_NOTE, technique="end-to-end PBT; oracle = name-meant vs name-seen equality"),
 })
